@@ -52,11 +52,16 @@ def run_one(prop, patch, budget, tier="quick", runs=None, test=False):
         sigs = sorted({l.split(" - ")[0].replace("violation: ", "")
                        for l in p.stdout.splitlines()
                        if l.startswith("violation: ")})
-        return {"status": {0: "MISSED", 1: "caught"}.get(p.returncode,
-                                                          "harness-%d" % p.returncode),
+        has_v = any(l.startswith("VIOLATION property=")
+                    for l in p.stdout.splitlines())
+        status = {0: "MISSED", 1: "caught"}.get(p.returncode,
+                                                "harness-%d" % p.returncode)
+        if p.returncode == 1 and not has_v:
+            status = "crashed"
+        return {"status": status,
                 "sigs": sigs, "wall": round(time.time() - t0, 1),
                 "tests_pass": tests_ok,
-                "tail": p.stdout[-600:] if p.returncode != 1 else ""}
+                "tail": (p.stdout[-600:] + p.stderr[-600:]) if status != "caught" else ""}
     finally:
         subprocess.run(["git", "-C", "/repo", "worktree", "remove", "--force",
                         wt], capture_output=True)
